@@ -378,7 +378,7 @@ var zvC29Counters = []string{"add_repeated_by_same_source", "add_by_second_sourc
 func TestVerifC29(t *testing.T) {
 	r := vh.Start(t, "C29")
 	defer r.Finish()
-	r.Rule("per flavour (static|BGP paths x IPv4|IPv6 x pointer|string sources; 3 sources x 3 routes r1, r2, r1' = r1's prefix with another path; thorough adds 3 sources x 4 routes (r2' too) for every flavour and 4 sources x 2 routes for the pointer flavours), " +
+	r.Rule("per flavour (static|BGP paths x IPv4|IPv6 x pointer|string sources; 3 sources x 3 routes r1, r2, r1' = r1's prefix with another path; thorough adds 3 sources x 4 routes (r2' too) for every flavour and 4 sources x 2 routes (r1, r1') for the pointer-source flavours), " +
 		"BFS over all sequences of AddRoute (repeats allowed), RemoveRoute (also by non-advertisers / of absent routes), DropAllBySrc until the set of canonical states " +
 		"(model + Loc-RIB content + private per-route source lists) closes; oracle in every reached state: route in the Loc-RIB dump <=> some source advertises it; evaluations = flavours explored")
 	r.Require(zvC29Counters...)
